@@ -109,6 +109,17 @@ impl IndexRead {
         if entries.is_empty() {
             // It's legal, it's just weird - and it can be produced by some old Conserve versions.
         }
+        // A damaged hunk can decode to values that the rest of the code assumes are
+        // impossible; treat it as undecodable rather than panicking later.
+        if let Some(bad) = entries.iter().find(|e| !e.mtime_is_representable()) {
+            self.stats.errors += 1;
+            return Err(Error::InvalidMetadata {
+                details: format!(
+                    "Index hunk {path:?} has an out-of-range mtime on {:?}",
+                    bad.apath
+                ),
+            });
+        }
         Ok(Some(entries))
     }
 
